@@ -222,14 +222,23 @@ func (r *runner) action(a string) bool {
 		r.tracef("    (dropped %d keys; of the current trees' handles %d dropped, %d still cached)", len(victims), dropped, kept)
 	case "l1evict":
 		// process n loses the nodes of its process-local MRU (capacity pressure), not its handle cache: the listed
-		// finding needs both (outdated handle -> outdated node still in the MRU), so the process counts as clean again
+		// finding needs both (outdated handle -> outdated node still in the MRU), so the process counts as clean again for the nodes that are outdated at that moment
 		resp, ok := r.call(n, Cmd{Kind: "l1evict"})
 		if !ok {
 			return false
 		} else if resp.Err != "" {
 			return r.sopError(n, "L1 eviction", resp)
 		}
-		r.wrote[n] = map[string]string{}
+		// only for the nodes that are outdated NOW: their old copies are gone for good (nothing loads a replaced blob
+		// again); a node that is still current may be cached again and be replaced later
+		for lid, w := range r.wrote[n] {
+			for s := range r.cur {
+				if sig, ok := r.cur[s][lid]; ok && sig != w {
+					delete(r.wrote[n], lid)
+					r.label("l1-nodes-evicted:outdated-node-dropped")
+				}
+			}
+		}
 		r.label("l1-nodes-evicted")
 	case "adv":
 		r.srv.Advance(time.Duration(n) * time.Second)
